@@ -155,6 +155,36 @@ Theorem conversion_preserves : forall k0 k m m' r,
 Proof. exact conversion_preserves_lemma. Qed.
 Print Assumptions conversion_preserves.
 
+(* every converting constructor validates the SOURCE's discount, whatever the source is (user-defined
+   generic model, library model built through NO_CHECK — no validity of the source is assumed):
+   accepted => same discount, in (0,1], and a valid result; a source discount outside (0,1] is rejected *)
+Theorem copy_ctor_validates_discount : forall k g m r, construct true k (CtorCopy g) = (Some m, r) ->
+  r = Ok /\ valid_model m /\ mD m = gD g /\ disc_ok (gD g).
+Proof. exact copy_ctor_validates_discount_lemma. Qed.
+Print Assumptions copy_ctor_validates_discount.
+
+Theorem copy_ctor_rejects_bad_discount : forall k g, ~ disc_ok (gD g) ->
+  exists r, construct true k (CtorCopy g) = (None, r) /\ r <> Ok.
+Proof. exact copy_ctor_rejects_bad_discount_lemma. Qed.
+Print Assumptions copy_ctor_rejects_bad_discount.
+
+Theorem conversion_validates_discount : forall k m m' r, convert true k m = (Some m', r) ->
+  r = Ok /\ valid_model m' /\ mD m' = mD m /\ disc_ok (mD m).
+Proof. exact conversion_validates_discount_lemma. Qed.
+Print Assumptions conversion_validates_discount.
+
+Theorem pomdp_copy_ctor_validates_discount : forall kb ko g p r, pconstruct true kb ko (PCtorCopy g) = (Some p, r) ->
+  r = Ok /\ valid_pmodel_k kb ko p /\ mD (pM p) = gD (gpM g) /\ disc_ok (gD (gpM g)).
+Proof. exact pomdp_copy_ctor_validates_discount_lemma. Qed.
+Print Assumptions pomdp_copy_ctor_validates_discount.
+
+Theorem conversion_nan_refuted :
+  (exists m, construct false Sparse (CtorCopy nan_source) = (Some m, Ok) /\ mD m = XNaN) /\
+  construct true Sparse (CtorCopy nan_source) = (None, Throw) /\
+  construct true Dense (CtorCopy nan_source) = (None, Throw).
+Proof. exact conversion_nan_refuted_lemma. Qed.
+Print Assumptions conversion_nan_refuted.
+
 (* conversions are partial: valid models exist that the other class refuses *)
 Theorem conversion_total_refuted :
   (exists m, run true Dense conv_reject_ops = Some m /\ valid_model m /\ convert true Sparse m = (None, Throw)) /\
